@@ -73,6 +73,18 @@ pub fn scoped(case: &str) -> Scope {
     Scope(())
 }
 
+/// The case the calling thread has announced and not yet retired, if any.
+pub fn current_case() -> Option<String> {
+    let i = MY_SLOT.with(|c| c.get());
+    let s = SLOTS.get(i)?;
+    if !s.active.load(Acquire) {
+        return None;
+    }
+    let n = s.len.load(Relaxed).min(CAP);
+    let b = unsafe { std::slice::from_raw_parts(s.buf.get() as *const u8, n) };
+    Some(String::from_utf8_lossy(b).into_owned())
+}
+
 /// Heartbeat inside a long case.
 #[inline]
 pub fn tick() {
